@@ -3,7 +3,7 @@ import vf
 SPEC = dict(
     level="proof",
     harness=dict(pkg_dir="index", run="TestVerifC16$", files=["index/zz_verif_c16_test.go"],
-                 n_quick=70, n_thorough=1500),
+                 n_quick=70, n_thorough=900),
     runner=dict(imports=["From ZV Require Import Lib.Base Model.MergeDocs."], case_type="c16case",
                 mismatch_fn="c16_mismatches", shard=60),
     rule="random simple shards built with the real ShardBuilder (1-4 repos per round, distinct priorities, 1-3 branches "
